@@ -300,7 +300,7 @@ InterpEvOK(ev) ==
       bcs == ev.bcs
       valid == ArgsValid(x, ev.y, o, bcs)
       singular == ev.out = "foreign" /\ ev.out_code = "std::exception: singular system"
-  IN /\ For("C14") => SupOf(ev.x_after) = x
+  IN /\ For("C14") => SupOf(ev.x_after) = x /\ ev.y_after = ev.y /\ ev.bcs_after = ev.bcs
      /\ For("C11") => IF valid THEN ev.out = "ok" \/ singular ELSE Threw(ev, "out")
      /\ For("C10") => (ev.out = "ok" => SplValid(SplOf(ev.res)))
      /\ For("C12") => (valid =>
@@ -323,7 +323,11 @@ FpEvOK(ev) ==
 FpIntXOK(ev) == For("C08") => \A k \in {"out_d", "out_l"} : ThrewCode(ev, k, "DIFFERING_GRIDS")
 
 FpGridNewOK(ev) ==
-  \A k \in {"f", "d", "l"} : IF XGridValid(ev.pts) THEN ev[k] = "ok" ELSE Threw(ev, k)
+  \A k \in {"f", "d", "l"} :
+     /\ For("C11") => IF XGridValid(ev.pts) THEN ev[k] = "ok" ELSE Threw(ev, k)
+     \* a grid that came to life shows at least two strictly increasing points through its accessors
+     /\ For("C10") => (ev[k] = "ok" => XGridValid(ev[k \o "_live"]))
+     /\ ev[k] = "ok" => ev[k \o "_live"] = ev.pts
 
 -----------------------------------------------------------------------------
 \* example solvers (C20): the numeric contracts were evaluated by the harness
